@@ -1472,3 +1472,62 @@ Proof.
   - apply (proj1 Hiff); [discriminate|reflexivity].
   - apply (proj2 Hiff); [discriminate|reflexivity].
 Qed.
+
+(** * Reads of a watched kind return what the informer holds
+
+    Whatever sequence of operations led to the state - whoever watched the kind first, with whatever
+    sample object, whatever failed - a Get of a kind some owner references finds an object iff the
+    informer's store has it under the scope-normalised key (namespace ignored for cluster-scoped kinds),
+    and returns that object. *)
+Lemma key_eqb_eq a b : key_eqb a b = true <-> a = b.
+Proof.
+  destruct a as [a1 a2], b as [b1 b2]. unfold key_eqb. cbn.
+  rewrite andb_true_iff, !N.eqb_eq. split; [intros [-> ->]; reflexivity|intros H; injection H; auto].
+Qed.
+
+Theorem read_watched_returns_store fixed handlers ops scope store g ns n :
+  let s := runf fixed (init handlers) ops in
+  owned s g ->
+  let k := store_key scope g ns n in
+  (In k (store g) -> cache_get scope store s g ns n = Some (Some k)) /\
+  (~ In k (store g) -> cache_get scope store s g ns n = Some None).
+Proof.
+  intros s Ho k. apply owned_entry in Ho. unfold cache_get.
+  destruct (lookup g (refs s)) as [l|]; [|congruence]. fold k.
+  destruct (existsb (key_eqb k) (store g)) eqn:E.
+  - split; [reflexivity|]. intros Hn. exfalso. apply Hn.
+    apply existsb_exists in E as (k' & Hin & He). apply key_eqb_eq in He. now subst.
+  - split; [|reflexivity]. intros Hin. exfalso.
+    assert (Ht : existsb (key_eqb k) (store g) = true).
+    { apply existsb_exists. exists k. split; [assumption|now apply key_eqb_eq]. }
+    congruence.
+Qed.
+
+(** For a cluster-scoped kind the namespace the caller puts into the key is irrelevant. *)
+Theorem read_cluster_scoped_ignores_namespace scope store s g ns ns' n :
+  scope g = false -> cache_get scope store s g ns n = cache_get scope store s g ns' n.
+Proof. intros H. unfold cache_get, store_key. now rewrite H. Qed.
+
+(** For a namespaced kind the lookup is by namespace and name. *)
+Theorem read_namespaced_by_namespace fixed handlers ops scope store g ns n :
+  let s := runf fixed (init handlers) ops in
+  owned s g -> scope g = true ->
+  cache_get scope store s g ns n = Some (if existsb (key_eqb (ns, n)) (store g) then Some (ns, n) else None).
+Proof.
+  intros s Ho Hs. apply owned_entry in Ho. unfold cache_get, store_key. rewrite Hs.
+  destruct (lookup g (refs s)); [reflexivity|congruence].
+Qed.
+
+(** List of a watched kind: everything the informer holds, or what it holds in the given namespace. *)
+Theorem list_watched_returns_store fixed handlers ops store g ns :
+  let s := runf fixed (init handlers) ops in
+  owned s g ->
+  exists l, cache_list store s g ns = Some l /\
+            forall k, In k l <-> In k (store g) /\ (ns = 0 \/ fst k = ns).
+Proof.
+  intros s Ho. apply owned_entry in Ho. unfold cache_list.
+  destruct (lookup g (refs s)); [|congruence]. eexists. split; [reflexivity|].
+  intros k. destruct (ns =? 0) eqn:E.
+  - apply N.eqb_eq in E. tauto.
+  - apply N.eqb_neq in E. rewrite filter_In, N.eqb_eq. tauto.
+Qed.
